@@ -66,6 +66,14 @@ func extraTypes() []*lat.Spec {
 		lat.FltB(-inf, -mx), lat.FltB(-inf, mx), lat.Arr(lat.FltB(0, inf), 0, lat.Max), lat.Arr(lat.A("FloatDefault"), 0, lat.Max), lat.W("Optional", lat.FltB(-inf, 1.5)),
 		lat.Var(lat.FltB(inf, inf), lat.A("String")), lat.Hsh(lat.A("String"), lat.A("FloatDefault"), 0, lat.Max), lat.Tup(lat.A("FloatDefault"), lat.FltB(-mx, mx)),
 		lat.Struct(lat.Member{Name: "a", Kind: 0, T: lat.A("FloatDefault")}), lat.W("NotUndef", lat.A("FloatDefault")),
+		// Hash whose key type accepts more strings than it lists (case-insensitive Enum, Pattern with an inline flag, Variant
+		// of them): the number of entries a hash may hold is bounded by its size parameters only, never by the key type
+		lat.Hsh(lat.Enum(true, "a"), lat.A("Integer"), 0, lat.Max), lat.Hsh(lat.Enum(true, "a", "b"), lat.A("Integer"), 0, lat.Max),
+		lat.Hsh(lat.Enum(false, "a", "b"), lat.A("Integer"), 0, lat.Max), lat.Hsh(lat.Enum(true, "present", "absent", "latest"), lat.A("Integer"), 0, lat.Max),
+		lat.Hsh(lat.Enum(true, "a", "b"), lat.A("Integer"), 3, 4), lat.Hsh(lat.Enum(true, "a", "b"), lat.A("Integer"), 0, 2),
+		lat.Hsh(lat.Pat("(?i)^a$"), lat.A("Integer"), 0, lat.Max), lat.Hsh(lat.Var(lat.Enum(true, "a"), lat.Enum(false, "b")), lat.A("Integer"), 0, lat.Max),
+		lat.Hsh(lat.W("Optional", lat.Enum(true, "a")), lat.A("Integer"), 0, lat.Max), lat.Hsh(lat.Enum(true, "a", "b"), lat.Enum(true, "x"), 0, lat.Max),
+		lat.Arr(lat.Enum(true, "a"), 0, lat.Max), lat.Arr(lat.Enum(false, "a", "b"), 0, lat.Max), lat.Arr(lat.Enum(true, "a", "b"), 3, 3),
 	}
 }
 
@@ -81,6 +89,13 @@ func extraValues() []*lat.VSpec {
 		lat.VA(lat.VI(0), lat.VS("x")), lat.VA(lat.VI(0), lat.VS("x"), lat.VS("y")), lat.VA(lat.VI(0), lat.VS("x"), lat.VI(1)), lat.VA(lat.VI(0)), lat.VA(lat.VI(9)), lat.VA(),
 		lat.VH(lat.VS("a"), lat.VI(1)), lat.VH(lat.VS("a"), lat.VI(1), lat.VS("b"), lat.VS("x")), lat.VH(lat.VS("b"), lat.VS("x")), lat.VH(lat.VS("a"), lat.VU()),
 		lat.VH(lat.VS("a"), lat.VI(1), lat.VS("c"), lat.VI(1)), lat.VH(), lat.VH(lat.VI(1), lat.VI(1)), lat.VH(lat.VS("a"), lat.VI(7)),
+		// more entries / elements than the key or element Enum has values: keys that differ in case only, repeated elements
+		lat.VH(lat.VS("a"), lat.VI(0), lat.VS("A"), lat.VI(1)), lat.VH(lat.VS("a"), lat.VI(0), lat.VS("b"), lat.VI(1), lat.VS("A"), lat.VI(2)),
+		lat.VH(lat.VS("a"), lat.VI(0), lat.VS("b"), lat.VI(1), lat.VS("A"), lat.VI(2), lat.VS("B"), lat.VI(3)), lat.VH(lat.VS("a"), lat.VI(0), lat.VS("b"), lat.VI(1)),
+		lat.VH(lat.VS("a"), lat.VI(0), lat.VS("b"), lat.VI(1), lat.VS("c"), lat.VI(2)), lat.VH(lat.VS("a"), lat.VI(0), lat.VS("A"), lat.VI(1), lat.VU(), lat.VI(2)),
+		lat.VH(lat.VS("present"), lat.VI(0), lat.VS("Present"), lat.VI(1), lat.VS("PRESENT"), lat.VI(2), lat.VS("absent"), lat.VI(3)),
+		lat.VH(lat.VS("a"), lat.VS("x"), lat.VS("A"), lat.VS("X"), lat.VS("B"), lat.VS("x")),
+		lat.VA(lat.VS("a"), lat.VS("a")), lat.VA(lat.VS("a"), lat.VS("A"), lat.VS("a")), lat.VA(lat.VS("a"), lat.VS("b"), lat.VS("a"), lat.VS("b")),
 		lat.VT(lat.Int(1, 2)), lat.VT(lat.Int(0, 9)), lat.VT(lat.A("String")), lat.VT(lat.Flt(0, 1)), lat.VT(lat.Var(lat.Int(1, 2), lat.A("String"))),
 	}, lat.NonFiniteValues()...) // NaN, +Inf, -Inf, the largest finite floats, -0.0: alone and inside collections
 }
